@@ -410,7 +410,19 @@ ROUND_HOISTERS = [
     Hoister(RINS, '_RoundInsertInstance', 'an operation together with the bindings of its operands'),
 ]
 
+# ----------------------------------------------------------------------
+# F3 rebuilt formats / contexts carry every parameter over under its own name
+
+def f3_rebuild_parameters(ctx: Ctx):
+    from .rebuild_rules import name_agreement
+    name_agreement(ctx, RESCALE, '_shift_format')
+    name_agreement(ctx, RESCALE, '_rescale')
+    name_agreement(ctx, OVERFLOW, '_unbounded')
+    name_agreement(ctx, NEGZERO, '_without_neg_zero')
+
+
 RULES = [
+    Rule('C10.F3', 'a rebuilt format / context receives every carried-over parameter under its own name (no swapped or shifted arguments)', f3_rebuild_parameters, 30, 'F'),
     Rule('C10.T1', 'overflow unfolding: emitter and verifier use the same (operand, comparator, threshold) pairs; strict for maxval, non-strict for infval', t1_threshold_pairing, 13, 'T,F'),
     Rule('C10.X1', 'block rewriters refuse what they cannot reproduce: unknown context first, class ladders end in Declined', x1_refusal_defaults, 30, 'X,P'),
     Rule('C10.F2', 'random bits are forwarded or stochastic sources refused wherever a context is rebuilt', f2_random_bits, 6, 'F,P'),
@@ -423,6 +435,11 @@ RULES = [
 from ..selftest import Mutant  # noqa: E402
 
 MUTANTS = [
+    Mutant('shifted-format-swaps-nan-inf', RESCALE, "                fmt.nmin + k, fmt.enable_nan, fmt.enable_inf, fmt.enable_neg_zero,\n            )\n        case _:", "                fmt.nmin + k, fmt.enable_inf, fmt.enable_nan, fmt.enable_neg_zero,\n            )\n        case _:", 'C10.F3',
+           'seeded change C10a: a NaN-only fixed-point context comes back infinity-only after rescale_fixed'),
+    Mutant('rescaled-context-swaps-substitutes', RESCALE, "        'inf_value': ctx.inf_value,\n        'nan_value': ctx.nan_value,", "        'inf_value': ctx.nan_value,\n        'nan_value': ctx.inf_value,", 'C10.F3'),
+    Mutant('unbounded-context-swaps-flags', OVERFLOW, "                enable_nan=ctx.enable_nan,\n                enable_inf=ctx.enable_inf,", "                enable_nan=ctx.enable_inf,\n                enable_inf=ctx.enable_nan,", 'C10.F3'),
+    Mutant('neg-zero-rebuild-shifts-arguments', NEGZERO, "                ctx.nmin, ctx.pos_maxval, ctx.rm, ctx.overflow,\n                ctx.num_randbits,", "                ctx.nmin, ctx.pos_maxval, ctx.overflow, ctx.rm,\n                ctx.num_randbits,", 'C10.F3'),
     Mutant('post-check-nonstrict', OVERFLOW, "rest = past(Var(t, loc), CompareOp.GT, src.maxval, src.over_pos, rest)", "rest = past(Var(t, loc), CompareOp.GE, src.maxval, src.over_pos, rest)", 'C10.T1',
            'maxval itself would be turned into the overflow value'),
     Mutant('early-check-at-maxval', OVERFLOW, "body = past(arg(), CompareOp.GE, src.infval, src.over_pos, body, g)", "body = past(arg(), CompareOp.GE, src.maxval, src.over_pos, body, g)", 'C10.T1'),
